@@ -15,6 +15,22 @@ notes = {
  "C17-d": "added `Check_KeepOverTCP`", "C18-d": "SystemCertPool / CertPool.Clone modelled", "C19-d": "UnmarshalOptions modelled, merge flag checked",
  "C12-b": "rendezvous semantics for select-send on unbuffered channels; 2 preemptions for UDP in the quick tier",
  "C12-c": "real `Start()` on a stub UDP socket (`Check_StartUDP`)", "C12-d": "client that disconnects mid-message; hang reported as violation",
+ "C01-f": "TCP stream transport and 4073/4074/5000-byte values in `Check_MaxMessage`", "C02-e": "caught by C14's lockset check (shared buffer written by the refresh and the send goroutine)",
+ "C02-g": "symbolic UTF-8 decoding in the engine, 2-byte strings in the quick tier, wall-clock budget (the check ran 25 min without a verdict before)",
+ "C03-f": "runt length fields (0, 15) in C11, hang reported as violation", "C03-g": "caught by C17 after the older template with the same ids and other lengths was added",
+ "C04-e": "added `Check_HistoryAfterUse`; a decoder that hangs is a violation", "C04-f": "zero-field template message kind",
+ "C04-g": "NOT DETECTED, by design: the change adds multi-record template sets, which the pinned code ignores; the property does not define them (see text)",
+ "C05-e": "caught by C06 after flows are created by one multi-record message", "C05-g": "no-correlation flavours (to/from external, denied inter-node) and the creating record checked",
+ "C06-f": "second key is an inter-node flow denied at egress", "C06-g": "added `Check_RecordOnWaitingFlow`", "C07-e": "destination node lists its elements in another order",
+ "C07-f": "NOT DETECTED, by design: a record with neither pod name has no reporting node in the property or in the pinned code (see text)",
+ "C08-e": "one set object reused for all data sets", "C08-f": "connection that accepts part of a Write", "C08-g": "added `Check_ConfiguredDomain` on the real `InitExportingProcess` (`sx.RegisterConn`)",
+ "C09-f": "application reads the record buffer first / retries the set", "C09-g": "caught by C02 (255-byte string)", "C10-e": "added `Check_ScheduleDTLS`",
+ "C10-g": "(stale harness copy in the first sweep)", "C11-e": "read-deadline timeouts at segment boundaries in the in-memory connection", "C11-f": "`net.ErrClosed` and other sentinel errors preset",
+ "C11-g": "added `Check_LargeMessage`", "C12-e": "NOT DETECTED: TLS server path, outside the claimed slice", "C12-g": "engine: a blocked select re-registering as receiver no longer counts as progress (the deadlock was never recognised)",
+ "C13-e": "callbacks that modify the record", "C13-g": "TryLock modelled; lock holders preemptible when the module uses TryLock; query results compared", "C14-e": "virtual time for tickers, `Check_RefreshInterval`",
+ "C14-f": "real background goroutines with harness-fired tickers, `Check_Lifecycle`", "C14-g": "refresh goroutine of the real Init under the access monitor", "C15-f": "caught by C03",
+ "C16-e": "added `Check_OddAdds`", "C16-f": "added `Check_OddAdds`", "C16-g": "caller overwrites its slice after the copying adds", "C18-f": "validity instant of the TLS configuration", "C18-g": "CA rotation on one settings object",
+ "C19-e": "second message of a stream uses another element order", "C19-f": "16-byte IPv4 form; netip markers preset", "C20-e": "repeated element in the record", "C20-f": "added `Check_QueryAfterChange`; lazily created globals no longer leak between paths",
  "C20-c": "out-of-range counts added", "C20-d": "float, boolean and address fields in the rendered record",
 }
 rows = []
@@ -35,10 +51,10 @@ for d in sorted(glob.glob('/verif/seeded/*')):
             lab = 'lockset'
         det.append(f"{p} {lab}".strip())
     summ = re.sub(r'\s+', ' ', m['summary'])[:150].replace('|', '/')
-    rows.append(f"| {sid} | {summ} | {'; '.join(det) or 'NOT DETECTED'} | {notes.get(sid, '-')} |")
+    rows.append(f"| {sid} | {summ} | {'; '.join(det) or 'not detected'} | {notes.get(sid, '-')} |")
 table = "| seed | change (first 150 characters of the author's summary) | caught by (quick tier; first assertion) | strengthened after a miss |\n|---|---|---|---|\n" + "\n".join(rows)
 s = open('/verif/DESIGN.md').read()
 a, b = s.index('<!-- seedtable:begin -->'), s.index('<!-- seedtable:end -->')
 s = s[:a] + '<!-- seedtable:begin -->\n' + table + '\n' + s[b:]
 open('/verif/DESIGN.md', 'w').write(s)
-print(len(rows), 'seeds;', sum('NOT DETECTED' in r for r in rows), 'not detected')
+print(len(rows), 'seeds;', sum('| not detected |' in r for r in rows), 'not detected')
